@@ -68,21 +68,21 @@ REQUIRED = {
 }
 ASSUMPTIONS = [
     "the residual is at least C^3 along the sampled segment once no recorded non-smooth "
-    "indicator changes branch between x-hv, x and x+hv (central differences, best of "
-    "h in {1e-4,1e-5,1e-6})",
+    "indicator changes branch between x-hv, x and x+hv (central differences at "
+    "h in {1e-4,1e-5,1e-6} and their Richardson extrapolations, best candidate per block)",
     "material constants are O(1) (well conditioned), so that the round-off floor of the "
-    "difference quotient stays below 1e-8 of the block scale (observed maximum 5e-9; tolerance 1e-5)",
+    "difference quotient stays below 1e-8 of the block scale (tolerance 1e-6)",
     "rows depending on a flipped indicator are found by shifting the function value at "
     "the flipped entries and re-evaluating the residual (a row is missed only if its "
     "dependence is multiplied by an exact zero at x)",
 ]
 LEVEL_TEXT = ("On every sampled model configuration and state the assembled Jacobian "
-              "agreed with central differences of the assembled residual to 1e-5 of the "
+              "agreed with central differences of the assembled residual to 1e-6 of the "
               "block scale in every equation block, with no discretization call and "
               "unchanged stored matrices inside the measurement window.")
 TECHNIQUE = "recorded assemble events vs central differences; discretization-window monitor"
 
-TOL = 1e-5
+TOL = 1e-6
 HS = (1e-4, 1e-5, 1e-6)
 HS_COORD = (1e-5, 1e-6)
 REL_MARGIN = 1e-3
@@ -251,14 +251,15 @@ def _prepare_state(model, rng, mon):
 
 
 def _check_direction(model, mon, x, J, b, b0, log0, v, hs, kind, blocks):
+    """Decide one direction: J v against central differences D(h) of the recorded
+    residuals and their Richardson extrapolations (100 D(h/10) - D(h)) / 99; the best
+    candidate per equation block must agree to TOL (a wrong term gives an O(1) error in
+    every candidate, truncation O(h^2) / O(h^4) and round-off O(eps/h) do not)."""
     es = model.equation_system
     Jv = J @ v
     nrow = b.size
-    best = {name: np.inf for name in blocks}
-    errs_glob = []
     excluded_rows = np.zeros(nrow, dtype=bool)
-    per_h = []
-    fds = []
+    cands = []          # (label, fd, excluded rows)
     for h in hs:
         bp, logp = _residual(es, x + h * v)
         bm, logm = _residual(es, x - h * v)
@@ -291,45 +292,50 @@ def _check_direction(model, mon, x, J, b, b0, log0, v, hs, kind, blocks):
                           {"model": model._pvm_name, "h": h})
             return False
         # b = -residual  =>  J v = -(b+ - b-)/(2h)
-        fd = -(bp - bm) / (2 * h)
-        err = np.abs(Jv - fd)
-        err[rows_h] = 0.0
-        per_h.append(err)
-        fds.append(fd)
-        gscale = max(float(np.max(np.abs(Jv))), float(np.max(np.abs(b))), 1e-300)
-        errs_glob.append(float(np.max(err)) / gscale)
-        for name, rows in blocks.items():
-            if rows.size == 0:
-                continue
-            sc = max(float(np.max(np.abs(Jv[rows]))), float(np.max(np.abs(b[rows]))))
-            if sc == 0.0:
-                sc = 1.0
-            e = float(np.max(err[rows])) / sc
-            if e < best[name]:
-                best[name] = e
+        cands.append((f"D({h:g})", -(bp - bm) / (2 * h), rows_h))
+    nd = len(cands)
+    for i in range(nd - 1):
+        q = (hs[i] / hs[i + 1]) ** 2
+        cands.append((f"R({hs[i]:g},{hs[i + 1]:g})",
+                      (q * cands[i + 1][1] - cands[i][1]) / (q - 1.0),
+                      cands[i][2] | cands[i + 1][2]))
+    errs = []
+    for label, fd, rows_x in cands:
+        e = np.abs(Jv - fd)
+        e[rows_x] = 0.0
+        errs.append(e)
+    gscale = max(float(np.max(np.abs(Jv))), float(np.max(np.abs(b))), 1e-300)
+    errs_glob = [float(np.max(e)) / gscale for e in errs]
     mon.measure(f"fd_error_global_best[{kind}]", min(errs_glob))
-    if len(errs_glob) >= 2 and errs_glob[-2] > 0:
-        mon.measure("fd_error_growth_last_decade", errs_glob[-1] / errs_glob[-2])
+    mon.measure("fd_error_global_plain_smallest_h", errs_glob[nd - 1])
+    if errs_glob[nd - 2] > 0:
+        mon.measure("fd_error_growth_last_decade", errs_glob[nd - 1] / errs_glob[nd - 2])
     ok = True
     for name, rows in blocks.items():
         if rows.size == 0:
             continue
+        sc = max(float(np.max(np.abs(Jv[rows]))), float(np.max(np.abs(b[rows]))))
+        if sc == 0.0:
+            sc = 1.0
+        per = [float(np.max(e[rows])) / sc for e in errs]
+        k = int(np.argmin(per))
         mon.count("blocks_checked")
-        mon.measure("fd_error_block_best", best[name])
-        if not (best[name] <= TOL):
+        mon.count("best_candidate:" + ("richardson" if k >= nd else "plain"))
+        mon.measure("fd_error_block_best", per[k])
+        if not (per[k] <= TOL):
             ok = False
-            k = int(np.argmin([np.max(e[rows]) for e in per_h]))
-            r = rows[int(np.argmax(per_h[k][rows]))]
+            r = rows[int(np.argmax(errs[k][rows]))]
             mon.violation(
                 f"jacobian-differs-from-residual-derivative:{name}",
                 {"model": model._pvm_name, "equation": name, "direction": kind,
-                 "rel_error_best_h": best[name], "h": hs[k], "tol": TOL,
-                 "row": int(r), "Jv": float(Jv[r]), "fd": float(fds[k][r]),
-                 "errors_per_h_global": errs_glob})
+                 "rel_error_best": per[k], "candidate": cands[k][0], "tol": TOL,
+                 "row": int(r), "Jv": float(Jv[r]), "fd": float(cands[k][1][r]),
+                 "block_scale": sc,
+                 "errors_per_candidate": dict(zip([c[0] for c in cands], per))})
     if min(errs_glob) > TOL and ok:
         # global criterion of the design (cannot exceed the block criterion)
         mon.violation("jacobian-differs-from-residual-derivative:global",
-                      {"errors_per_h_global": errs_glob})
+                      {"errors_per_candidate_global": errs_glob})
         ok = False
     mon.count("rows_excluded_by_flip", int(excluded_rows.sum()))
     mon.count("rows_compared", int(nrow - excluded_rows.sum()))
@@ -509,6 +515,10 @@ def check(case, mon):
                                                and mdg.dim_min() == 0))
     mon.count("discretization_calls_outside_window_seen",
               sum(WINDOW.total.values()) > 0)
+    # namespaces in which the recording wrappers replaced the original (per case)
+    for fn, na in KINKS.alias_count.items():
+        mon.count("wrapper_aliases_patched:" + fn, na)
+    mon.count("wrapper_aliases_patched:discretize_from_list", WINDOW.alias_count)
     dirs = case.get("dirs", [3, 10])
     good = 0
     for seed in case["states"]:
